@@ -452,19 +452,6 @@ func propMWU(a *Analysis, r *Registry, which string) {
 				for n, c := range copies {
 					cn := "stats.labeledMerge/merge#" + itoa(n+1)
 					where := a.W.InstrPos(c.st)
-					_, in := recurrenceOrNil(fc, c.I)
-					_, on := recurrenceOrNil(fc, c.O)
-					if in == nil || on == nil {
-						r.Fail(rB, cn, where, "the input or output position of a copy is not a counter carried round its loop")
-						continue
-					}
-					b.EqRF(rB, cn+"/input-advances", where, in, S.Ite(c.when, c.I.Add(S.Int(1)), c.I), "the input counter advances exactly when its element is copied")
-					b.EqRF(rB, cn+"/output-advances", where, on, c.O.Add(S.Int(1)), "the output counter advances in every iteration")
-					if startsAtZero(c.I) && startsAtZero(c.O) {
-						r.OK(rB, cn+"/from-zero", where, "input and output counters start at 0")
-					} else {
-						r.Fail(rB, cn+"/from-zero", where, "an input or output counter does not start at 0: elements are skipped or slots left unset")
-					}
 					// one loop over the output positions, taking x1's head when x2 is exhausted or
 					// x1 still has elements and its head is the smaller (or the mirror image): the
 					// counters satisfy i+j = o throughout, so the loop's guard o < len(x1)+len(x2) and
@@ -489,18 +476,31 @@ func propMWU(a *Analysis, r *Registry, which string) {
 						if msg != "" || !(guard.Equal(S.Cmp("<", c.O, c.lenK.Add(o.lenK))) || X.EquivByCases(guard, S.Cmp("<", c.O, c.lenK.Add(o.lenK)), 0)) {
 							return false
 						}
-						if !c.O.Equal(o.O) || !startsAtZero(c.I) || !startsAtZero(o.I) || !startsAtZero(c.O) {
+						if !c.O.Equal(o.O) || !startsAtZero(c.I) || !startsAtZero(o.I) {
 							return false
 						}
-						// i+j = o is kept: the three counters' next values
 						_, in := recurrenceOrNil(fc, c.I)
 						_, jn := recurrenceOrNil(fc, o.I)
-						_, on := recurrenceOrNil(fc, c.O)
-						if in == nil || jn == nil || on == nil {
+						if in == nil || jn == nil {
 							return false
 						}
-						if d := in.Add(jn).Sub(on); !(d.Equal(c.I.Add(o.I).Sub(c.O)) || X.EquivByCases(d, c.I.Add(o.I).Sub(c.O), 0)) {
-							return false
+						if c.O.Equal(c.I.Add(o.I)) {
+							// the output position is written as i+j: exactly one of the two advances, by one
+							if d := in.Add(jn).Sub(c.I.Add(o.I)); !(d.Equal(S.Int(1)) || X.EquivByCases(d, S.Int(1), 0)) {
+								return false
+							}
+						} else {
+							// i+j = o is kept: the three counters' next values
+							_, on := recurrenceOrNil(fc, c.O)
+							if on == nil || !startsAtZero(c.O) {
+								return false
+							}
+							if d := in.Add(jn).Sub(on); !(d.Equal(c.I.Add(o.I).Sub(c.O)) || X.EquivByCases(d, c.I.Add(o.I).Sub(c.O), 0)) {
+								return false
+							}
+							if !(on.Equal(c.O.Add(S.Int(1)))) {
+								return false
+							}
 						}
 						// within the guard (o < len1+len2, so with i+j = o not both inputs are exhausted)
 						inv := []Assumption{{Cond: S.Or(S.Cmp("<", c.I, c.lenK), S.Cmp("<", o.I, o.lenK)), True: true}}
@@ -521,6 +521,30 @@ func propMWU(a *Analysis, r *Registry, which string) {
 						drained[1], drained[2] = true, true
 						r.OK(rB, cn+"/one-loop", where, "one loop over the output positions (i+j = o): a head is taken from one input when the other is exhausted or its head is the smaller")
 						continue
+					}
+					_, in := recurrenceOrNil(fc, c.I)
+					_, on := recurrenceOrNil(fc, c.O)
+					// (the output position may be written as the sum of the two input positions)
+					sumPos := false
+					for _, o := range copies {
+						if o.loop.Header == c.loop.Header && o.st != c.st && c.O.Equal(c.I.Add(o.I)) {
+							sumPos = true
+						}
+					}
+					if in == nil || (on == nil && !sumPos) {
+						r.Fail(rB, cn, where, "the input or output position of a copy is not a counter carried round its loop")
+						continue
+					}
+					b.EqRF(rB, cn+"/input-advances", where, in, S.Ite(c.when, c.I.Add(S.Int(1)), c.I), "the input counter advances exactly when its element is copied")
+					if sumPos {
+						r.OK(rB, cn+"/output-advances", where, "the output position is the sum of the two input positions, exactly one of which advances")
+					} else {
+						b.EqRF(rB, cn+"/output-advances", where, on, c.O.Add(S.Int(1)), "the output counter advances in every iteration")
+					}
+					if startsAtZero(c.I) && (sumPos || startsAtZero(c.O)) {
+						r.OK(rB, cn+"/from-zero", where, "input and output counters start at 0")
+					} else {
+						r.Fail(rB, cn+"/from-zero", where, "an input or output counter does not start at 0: elements are skipped or slots left unset")
 					}
 					// the loop's guard: every input read in this loop has an element left, and nothing more
 					want := S.True()
@@ -561,6 +585,18 @@ func propMWU(a *Analysis, r *Registry, which string) {
 						}
 					default:
 						r.Fail(rB, cn, where, "more than two copies in one loop")
+					}
+				}
+				// (what is left of an input may be moved by the builtin: copy(merged[o:], xk[ik:]))
+				for _, cc := range fc.CallsTo("builtin:copy") {
+					dst, src := fc.Val(cc.Call.Args[0]).SingleAtom(), fc.Val(cc.Call.Args[1]).SingleAtom()
+					if dst == nil || src == nil || dst.Name != "slice" || src.Name != "slice" || !dst.Args[0].Equal(mslice) {
+						continue
+					}
+					for k, xk := range map[int]*RF{1: menv.Vars["x1"].RF, 2: menv.Vars["x2"].RF} {
+						if src.Args[0].Equal(xk) && len(fc.loopPhis(src.Args[1])) > 0 {
+							drained[k] = true
+						}
 					}
 				}
 				if len(copies) > 0 {
